@@ -183,3 +183,29 @@ Proof.
         auto using ex_cid_ok_root, ex_cid_ok_mid, ex_cid_ok_leaf; vm_compute; try reflexivity; discriminate.
     + cbn [o_trusted]. discriminate.
 Qed.
+
+(* two Dag entries sharing one cidSet: (root, narrow selector: opens root and leaf), then (mid, ...:
+   opens mid and leaf again) -- the later entry contributes mid; nothing is written twice *)
+Definition ex_dags : list (bytes * trace) :=
+  [(ex_root, mktrace [ld_of ex_root ex_rootd; ld_of ex_leaf ex_leafd] true);
+   (ex_mid, mktrace [ld_of ex_mid ex_midd; ld_of ex_leaf ex_leafd] true)].
+
+Example ex_dags_hyps :
+  Forall (fun d => t_ok (snd d) = true) ex_dags
+  /\ Forall (fun d => exists x rest, blocks_of (t_loads (snd d)) = (fst d, x) :: rest) ex_dags.
+Proof.
+  split; [repeat constructor|].
+  constructor; [cbn; do 2 eexists; reflexivity|]. constructor; [cbn; do 2 eexists; reflexivity|constructor].
+Qed.
+
+Example ex_dags_write :
+  sc_write_dags 2 ex_dags = sc_write 2 [ex_root; ex_mid] (blocks_of ex_loads) true
+  /\ sc_prepare_dags ex_dags = Some (68, [ex_root; ex_mid], [ex_root; ex_leaf; ex_mid])
+  /\ sc_gets_dags ex_dags = [ex_root; ex_leaf; ex_mid; ex_leaf].
+Proof. repeat split; vm_compute; reflexivity. Qed.
+
+(* a failing second walk: Write keeps the prefix and reports the error, Prepare fails *)
+Example ex_dags_failed :
+  let ds := [(ex_root, mktrace [ld_of ex_root ex_rootd] true); (ex_mid, mktrace [] false); (ex_leaf, mktrace [ld_of ex_leaf ex_leafd] true)] in
+  snd (sc_write_dags 1 ds) = false /\ sc_prepare_dags ds = None /\ sc_gets_dags ds = [ex_root].
+Proof. repeat split; vm_compute; reflexivity. Qed.
